@@ -1,3 +1,7 @@
 module verifsim
 
 go 1.20
+
+require golang.org/x/crypto v0.14.0
+
+require golang.org/x/sys v0.13.0 // indirect
